@@ -331,8 +331,8 @@ Definition spec_case (c : case) : bool :=
                     (negb (has_ecs (all_options extra)) || marker)
       | None => true
       end
-  | CaseEdnsReply noedns trunc resp counts => forallb (fun n => n =? 0) counts
-  | CaseEdnsBadvers b remote extra counts => forallb (fun n => n =? 0) counts
+  | CaseEdnsReply noedns trunc resp counts => forallb (fun n => n =? 0) counts && (length counts <=? 1)%nat
+  | CaseEdnsBadvers b remote extra counts => forallb (fun n => n =? 0) counts && (length counts <=? 1)%nat
   | CaseCache c ops => spec_ops c [] ops
   | CaseDenial b t seen => negb (root_isolated t) || forallb (fun s => negb (snd s)) seen
   end.
